@@ -44,7 +44,7 @@ prop("C01",
 
 prop("C02",
      [partial(panic.run, name="R-PANIC"), errflow.run, stop.run, scope.run, orpat.run, lock.run, guard.run_execerror, variant.run, guard.run_mustcall, misc.run_looptype, layer.run, round3.run_assigntyping, round6.run_unarycall, round6.run_whobinds, cast.run, round11.run_selfname, round11.run_parsescope, round11.run_matchdir, round11.run_unionall],
-     "R-SELFNAME / R-PARSESCOPE: a running declaration never overwrites a parameter with the function's own name; Code::parse folds a statement against a copy of the scope taken before the statement was created. R-CAST (an int converted to a length / index without a sign test in front of it: a negative constant becomes a huge allocation and a capacity panic). R-UNARYCALL / R-WHOBINDS: a callee's body never runs in the caller's scope, names are bound only by declaring constructs. Also R-ASSIGNTYPING (a compound assignment admitting operands its operator does not type ends in a failed downcast). Decides: the complete inventory of panic-capable sites (383 today) is matched per function and signature to a reviewed "
+     "R-MATCHDIR: no admissibility test asks `<constant type>.matches(<operand type>)`. R-UNIONALL. R-SELFNAME / R-PARSESCOPE: a running declaration never overwrites a parameter with the function's own name; Code::parse folds a statement against a copy of the scope taken before the statement was created. R-CAST (an int converted to a length / index without a sign test in front of it: a negative constant becomes a huge allocation and a capacity panic). R-UNARYCALL / R-WHOBINDS: a callee's body never runs in the caller's scope, names are bound only by declaring constructs. Also R-ASSIGNTYPING (a compound assignment admitting operands its operator does not type ends in a failed downcast). Decides: the complete inventory of panic-capable sites (383 today) is matched per function and signature to a reviewed "
      "justification naming the check that discharges it (R-PANIC); no error or control signal is dropped (R-ERRFLOW); ExecStop is "
      "raised and caught only where the control-flow table says, with the documented routing (R-STOP); no callee declares into the "
      "caller's scope (R-SCOPE); no universal check is written as an overlapping or-pattern (R-ORPAT); nothing can panic while a "
@@ -113,8 +113,8 @@ prop("C08",
 
 prop("C09",
      [misc.run_units, misc.run_slicetype, partial(panic.run, scope=INDEX_SCOPE, name="R-PANIC"), orpat.run, cast.run,
-      partial(guard.run, only_variants=("CannotIndexWith", "CannotIndexInto", "CannotSlice")), round11.run_pairfield],
-     "Decides: unit agreement (at::exec, Slicing::exec and std.len count chars, none measures bytes; negative indices are "
+      partial(guard.run, only_variants=("CannotIndexWith", "CannotIndexInto", "CannotSlice")), round11.run_pairfield, round11.run_slicemin],
+     "R-PAIRFIELD: every slice bound is built from the pair whose grammar rule names that bound (rule sets per call site from the R-PAIRFLOW interpretation). Decides: unit agreement (at::exec, Slicing::exec and std.len count chars, none measures bytes; negative indices are "
      "normalised with the same len), no unchecked index in at::exec, both bounds directions raise IndexOutOfBounds, all three "
      "slice bounds are type-checked (R-ORPAT, R-GUARD), index casts are exact (R-CAST). Does NOT decide the index arithmetic or "
      "slyce's selection.",
@@ -135,8 +135,8 @@ prop("C10",
      "a comparison written through a helper the labels cannot follow is reported as undecidable")
 
 prop("C11",
-     [iterops.run_src, iterops.run_loop, iterops.run_pick, forshape.run, partial(panic.run, scope=ITER_SCOPE, name="R-PANIC"), round3.run_iterfold, round4.run_instrstate, parsepure.run],
-     "R-PARSEPURE: no iterator is built while parsing (it would be shared by every evaluation). R-INSTRSTATE: no interior-mutable field in parsed code (a cached fragment / iterator would be shared by all evaluations). Also R-ITERFOLD: no iterator is created, pulled or reduced at fold time. Decides, on the code that implements the iterator operators (13 SimpleSL fragments embedded in the Rust sources, parsed "
+     [iterops.run_src, iterops.run_loop, iterops.run_pick, forshape.run, partial(panic.run, scope=ITER_SCOPE, name="R-PANIC"), round3.run_iterfold, round4.run_instrstate, parsepure.run, round11.run_matchdir],
+     "R-MATCHDIR (the run-time pick of the int / float / string fold tests the iterator's type against the literal, not the reverse). R-PARSEPURE: no iterator is built while parsing (it would be shared by every evaluation). R-INSTRSTATE: no interior-mutable field in parsed code (a cached fragment / iterator would be shared by all evaluations). Also R-ITERFOLD: no iterator is created, pulled or reduced at fold time. Decides, on the code that implements the iterator operators (13 SimpleSL fragments embedded in the Rust sources, parsed "
      "with the repository's grammar and analysed path by path; 3 Rust pull loops on the MIR CFG): every iteration pulls its "
      "source at most once and never after the end marker; f / p run only on delivered elements, once each, never on the end "
      "marker's payload; no element is dropped unexamined; map / filter / `? T` / `~` do nothing until their result is pulled; "
@@ -156,7 +156,7 @@ prop("C12",
       partial(guard.run, only_variants=("BreakOutsideLoop", "ContinueOutsideLoop", "ReturnOutsideFunction", "WrongReturn",
                                         "MatchNotCovered", "WrongCondition", "MissingReturn")),
       partial(tables.run_dispatch, only=("match_arm", "stm", "line", "body")), pairflowrule.run, guard.run_mustcall, misc.run_looptype, round3.run_meetuse, round3.run_childkeep, round3.run_valuearm, forshape.run, round6.run_rekind, round11.run_unionall],
-     "R-REKIND: folding a loop yields a loop (its catch site for break / continue stays). Also: arms are never dropped from a match (R-CHILDKEEP), not pruned by the non-exact Type::conjoin (R-MEETUSE); a value arm is decided by == alone (R-VALUEARM). Decides: a single catch site per signal (Loop::exec for Break/Continue, Function::exec for Return) with the documented "
+     "R-UNIONALL: checks that walk the members of a union scrutinee / operand quantify with `all`. R-REKIND: folding a loop yields a loop (its catch site for break / continue stays). Also: arms are never dropped from a match (R-CHILDKEEP), not pruned by the non-exact Type::conjoin (R-MEETUSE); a value arm is decided by == alone (R-VALUEARM). Decides: a single catch site per signal (Loop::exec for Break/Continue, Function::exec for Return) with the documented "
      "routing, sugared loops emit Break inside a Loop, in_loop set/restored/reset (R-STOP); placement and exhaustiveness guards "
      "exist and dominate success (R-GUARD); arm loop returns at the first cover, branches are exclusive (R-EVALORDER); all three "
      "match-arm forms and all statements have a handler (R-TABLES-D). Does NOT decide which arm a given value selects.",
@@ -165,7 +165,7 @@ prop("C12",
 prop("C13",
      [parsepure.run, misc.run_celltype, partial(witness.run, only=("W3MutNotClone",)), lock.run, guard.run_mustcall,
       partial(guard.run, only_variants=("WrongInitialization", "CannotDo2")), fold.run, evalorder.run, round3.run_assigntyping, round3.run_cellmember, round11.run_unionall],
-     "Also R-CELLMEMBER (a union of cell types is admitted member by member) and R-ASSIGNTYPING: the result type that must fit the cell is computed by the operator's own typing function. Decides: a cell is built only by executing `mut` (or as a type default), never while parsing/folding (R-PARSEPURE); Mut is "
+     "R-UNIONALL (assignment through a union of cells must fit every member cell). Also R-CELLMEMBER (a union of cell types is admitted member by member) and R-ASSIGNTYPING: the result type that must fit the cell is computed by the operator's own typing function. Decides: a cell is built only by executing `mut` (or as a type default), never while parsing/folding (R-PARSEPURE); Mut is "
      "not Clone, Variable::Mut holds Arc<Mut> (witness); assign::can_be_used asks mut_element_type and Type::matches, "
      "WrongInitialization guards creation (R-MUSTCALL, R-GUARD); update = read, kernel, store under one write guard, store after "
      "success in try_exec (R-LOCK); value read after the right operand (R-EVALORDER). Does NOT decide the values stored.",
@@ -219,7 +219,7 @@ prop("C18",
 
 prop("C19",
      [eqfield.run, round3.run_valuearm, round3.run_childkeep, round3.run_meetuse, round8.run_repeat, round10.run_infixop, round10.run_renderkey],
-     "R-INFIXOP: `==` / `!=` are built as the operator that was written, never rewritten into another one. R-RENDERKEY. R-REPEAT: `[v; n]` is built by Array::new_repeat = repeat_n(v, n) collected, when run and when folded (so it equals the literal with n copies, `[]` for n = 0). Also: value arms / candidates are never dropped (R-CHILDKEEP), nor pruned by the non-exact meet (R-MEETUSE). Also R-VALUEARM: value arms of match consult nothing but Variable::eq. Decides: Array equality reads `elements` only; Variable equality compares Function / Mut by Arc::ptr_eq and the rest through "
+     "R-EQFIELD identity-shortcut clause: pointer identity decides equality only for functions and cells. R-INFIXOP: `==` / `!=` are built as the operator that was written, never rewritten into another one. R-RENDERKEY. R-REPEAT: `[v; n]` is built by Array::new_repeat = repeat_n(v, n) collected, when run and when folded (so it equals the literal with n copies, `[]` for n = 0). Also: value arms / candidates are never dropped (R-CHILDKEEP), nor pruned by the non-exact meet (R-MEETUSE). Also R-VALUEARM: value arms of match consult nothing but Variable::eq. Decides: Array equality reads `elements` only; Variable equality compares Function / Mut by Arc::ptr_eq and the rest through "
      "the payload's PartialEq; `ne` is not overridden; ==, != and match value arms call exactly that PartialEq. Symmetry / "
      "reflexivity as laws are not decided.",
      "field-projection and callee inspection of the PartialEq impls", "")
